@@ -19,6 +19,8 @@ type Outcome struct {
 	Sample     interface{}
 	Inconclusive int
 	Debug func(w io.Writer)
+	// Post, when set, runs after the bubble has ended (on the real clock).
+	Post func(o *Outcome)
 }
 
 // Scenario is one simulated system configuration family.
